@@ -10,7 +10,7 @@
 (* Design level: Updated() changes nothing but property sets of the layer.    *)
 EXTENDS VectorTile, Json
 
-CONSTANTS Mode, NSources, PoolSize, Variants, MaxFeats
+CONSTANTS UDeep, Mode, NSources, PoolSize, Variants, MaxFeats
 
 VARIABLES c
 vars == <<c>>
@@ -38,15 +38,20 @@ U4 == [id |-> "4", gt |-> 0, geom |-> 4, props |-> << P("id", V("s", "zz")), P("
 UPool == <<U1, U2, U3, U4>>
 USeqs == { <<UPool[i], UPool[j]>> : i \in 1..4, j \in 1..4 } \cup { <<UPool[i]>> : i \in 1..4 } \cup { <<U1, U2, U3, U4>> }
          \cup { <<UPool[i], UPool[j], UPool[k]>> : i \in 1..4, j \in 1..4, k \in 1..4 }
+         \cup (IF UDeep = 1 THEN { <<UPool[i], UPool[j], UPool[k], UPool[m]>> : i \in 1..4, j \in 1..4, k \in 1..4, m \in 1..4 } ELSE {})
+\* every tile also carries a layer without features (legal, and "every other layer is preserved" includes it)
 UTiles == { << [name |-> "a", extent |-> 4096, version |-> 2, feats |-> fa],
-               [name |-> "b", extent |-> 512, version |-> 1, feats |-> <<U1, U3>>] >> : fa \in USeqs }
+               [name |-> "b", extent |-> 512, version |-> 1, feats |-> <<U1, U3>>],
+               [name |-> "c", extent |-> 256, version |-> 2, feats |-> <<>>] >> : fa \in USeqs }
 \* data table rows (without the id column; the id column is added when include_id is set)
 Rows == { << [id |-> "r1", idv |-> V("s", "r1"), props |-> << P("k", V("s", "new")), P("pop", V("n", "9")) >>] >>,
           << [id |-> "r1", idv |-> V("s", "r1"), props |-> << P("k", V("s", "new")), P("pop", V("n", "9")) >>],
              [id |-> "5", idv |-> V("n", "5"), props |-> << P("k", V("s", "five")), P("pop", V("n", "0")) >>] >> }
 WithId(rows, inc) == [i \in 1..Len(rows) |->
     [id |-> rows[i].id, props |-> IF inc = 1 THEN <<P("rid", rows[i].idv)>> \o rows[i].props ELSE rows[i].props]]
-Opts == { [layer |-> "a", idfield |-> "id", replace |-> a, remove |-> b, include_id |-> i] : a \in {0, 1}, b \in {0, 1}, i \in {0, 1} }
+\* the layer to update: "a"; in the deep tier also "b", the empty layer "c" and a layer the tile does not have
+ULayers == IF UDeep = 1 THEN {"a", "b", "c", "zz"} ELSE {"a"}
+Opts == { [layer |-> ly, idfield |-> "id", replace |-> a, remove |-> b, include_id |-> i] : ly \in ULayers, a \in {0, 1}, b \in {0, 1}, i \in {0, 1} }
 
 Emit(rec) == PrintT(<<"REPLAY", ToJson(rec)>>)
 
